@@ -61,6 +61,19 @@ func genFSName(r *Rng) string {
 	return s
 }
 
+func swapCase(s string) string {
+	b := []byte(s)
+	for i, ch := range b {
+		switch {
+		case ch >= 'a' && ch <= 'z':
+			b[i] = ch - 32
+		case ch >= 'A' && ch <= 'Z':
+			b[i] = ch + 32
+		}
+	}
+	return string(b)
+}
+
 func runC09(r *Rng, n int, replay string) {
 	type conv struct {
 		goos string
@@ -162,7 +175,9 @@ func runC09(r *Rng, n int, replay string) {
 				rootOS + sep + ".." + sep + "x", rootOS + sep + "." + sep + "a",
 				// an empty first element: a doubled separator right after the volume
 				effVol + sep + sep + "x" + sep + "a", effVol + sep + sep + "a", effVol + sep + strings.TrimPrefix(base, effVol),
-				effVol + sep + sep + sep + "b"}
+				effVol + sep + sep + sep + "b",
+				// the same volume in another letter case is a different volume name to this code
+				swapCase(effVol) + strings.TrimPrefix(base, effVol), swapCase(effVol) + sep + "a"}
 			p := cands[r.Intn(len(cands))]
 			pvol := cv.vn(p)
 			abs := strings.HasPrefix(strings.TrimPrefix(p, pvol), sep) // filepath.IsAbs for the convention
